@@ -43,6 +43,10 @@ func cmdConc(args []string) error {
 		`all a.b.c as v { v.x == 1 and v.y != 2 }`, `any a.b.c.d.e as v { v.x == 2 }`, `all a.b.c.d.e.f as _, v { v.x != 9 }`, `any a.b.c.d.e.f.g as k, v { v.x == 3 and k != 1 }`,
 		`all "/a/b/c" as v { v.x == 1 or v.y == 2 }`, `any l as v { any v as w { w == 2 } }`, `m.zz == 1 or st.Zz is empty`, `u_str == unk and 1 in l.0`, `X == 1 and Y != a`,
 		`all Tags as t { t matches "^t" }`, `any big as v { v == 39 }`, `num == 1 and X == 1`, `any a.b.c as v { v.x == 1 or v.y == 2 }`, `num != 2 or X in l`, `1 in mixed`, `0 in mixed or 1.5 in mixed`,
+		// error paths of quantifiers (maps whose keys are not strings, non-collections, same name twice) on some documents, ordinary
+		// iterations with live bindings on the others
+		`any mi as k, v { v != "zz" and k != "q" }`, `(all im3 as k, v { v.V != 9 }) or (any s as c { c == 1 })`, `(any m3 as k, k { k == 1 }) or (all mi as k, v { k != "q" and v != "zz" })`,
+		`all l as i, v { (any v as j, w { w != 99 and j != 7 }) and i != 9 }`,
 	}
 	opts := [][]bexpr.Option{nil, {bexpr.WithUnknownValue("unk")}, {bexpr.WithHookFn(run.HookFn("unwrap"))}, {bexpr.WithTagName("json"), bexpr.WithMaxExpressions(1 << 20)}}
 	docs := func() []interface{} {
